@@ -57,6 +57,10 @@ pub struct RelaySc {
     pub buffer_size: usize,
     pub client_window: Option<Vec<usize>>,
     pub origin_window: Option<Vec<usize>>,
+    /// a last origin message that is only sent after the origin has seen the client's end-of-stream
+    pub o_after_client_eof: Vec<u8>,
+    /// a last client message that is only sent after the client has seen the origin's end-of-stream
+    pub c_after_origin_eof: Vec<u8>,
     pub rules: &'static str,
     /// tag for the tunnel (endpoint names), so two tunnels can share a world
     pub tag: &'static str,
@@ -80,6 +84,8 @@ impl RelaySc {
             buffer_size: 8,
             client_window: None,
             origin_window: None,
+            o_after_client_eof: vec![],
+            c_after_origin_eof: vec![],
             rules: r#"[{"target":"up"}]"#,
             tag: "",
         }
@@ -98,10 +104,13 @@ impl RelaySc {
         for m in &self.c_msgs {
             v.extend(m);
         }
+        v.extend(&self.c_after_origin_eof);
         v
     }
     pub fn origin_payload(&self) -> Vec<u8> {
-        self.o_msgs.concat()
+        let mut v = self.o_msgs.concat();
+        v.extend(&self.o_after_client_eof);
+        v
     }
 }
 
@@ -198,6 +207,9 @@ pub fn add_tunnel(w: &mut World, sc: &RelaySc) -> Tunnel {
         for m in &o_msgs {
             inbound.push(Msg::new(m));
         }
+        if !sc.o_after_client_eof.is_empty() {
+            inbound.push(Msg::after(&sc.o_after_client_eof, Guard::Shutdown));
+        }
     }
     let origin_script = EpScript {
         inbound,
@@ -213,6 +225,9 @@ pub fn add_tunnel(w: &mut World, sc: &RelaySc) -> Tunnel {
     let mut cin: Vec<Msg> = vec![Msg::new(&[&sc.head[..], &sc.early[..]].concat())];
     for m in &sc.c_msgs {
         cin.push(Msg::after(m, Guard::TxContains(b"200 Connection".to_vec())));
+    }
+    if !sc.c_after_origin_eof.is_empty() {
+        cin.push(Msg::after(&sc.c_after_origin_eof, Guard::Shutdown));
     }
     let client_script = EpScript {
         inbound: cin,
